@@ -53,6 +53,7 @@ def initial_state(ex: Exec, fi: front.FuncInfo, c: Contract) -> State:
     st = State()
     st.func = fi
     st.contract = c
+    st.assume(st.alloc0 >= 0)
     a = fi.node.args
     params = a.posonlyargs + a.args + a.kwonlyargs
     for i, p in enumerate(params):
@@ -106,21 +107,7 @@ def verify_function(c: Contract, registry: Dict[str, Contract]) -> FunctionResul
         entry = st.fork()
         st.old = entry
         ex.lets = {}
-        for lname, (lparam, ltype, ltext) in c.lets.items():
-            lth = parse_hint(ltype)
-            fn = z3.Function(f"let_{lname}", z3.IntSort(), V)
-            jv = fresh(lparam, z3.IntSort())
-            es = entry.fork()
-            es.no_type_facts = True
-            npc = len(es.pc)
-            from .sym import vint as _vint
-
-            val = ex.eval_spec(es, ltext, dict(entry.locals, **{lparam: _vint(jv)}), fi, old=entry)
-            side = es.pc[npc:]
-            body_ = fn(jv) == ex.to_z(es, val)
-            st.assume(z3.ForAll([jv], z3.And(side + [body_]) if side else body_))
-            st.heap, st.nalloc, st.alloc_base = st.heap, st.nalloc, st.alloc_base
-            ex.lets[lname] = (fn, lth)
+        ex.define_lets(c, st, entry, fi, "entry")
         # vacuity guard: the precondition must be satisfiable
         ex.oblige("cover.requires", st, z3.BoolVal(False), fi.lineno, "cover", " and ".join(c.requires) or "True")
         outs = ex.exec_block(fi.node.body, st)
